@@ -5,7 +5,7 @@ BASE = "cd /repo && /venv/bin/python -m pytest -ra -q -p no:cacheprovider --time
 
 CHECKS = {
  "C19": dict(
-   text="Theorems C19_no_lost_update, C19_order_independent, C19_n_way, C19_cell over unbounded Z about a model that harness/translate.py regenerates from src/BTrees/Length.py on every run; the real class is run against the generated model (vm_compute) and against the closed formula.",
+   text="Theorems C19_no_lost_update, C19_order_independent, C19_n_way, C19_cell over unbounded Z about a model that harness/translate.py regenerates from src/BTrees/Length.py on every run; the real class is run against the generated model (vm_compute) and against the closed formula. A Length living in a database: change()/set() must register the object, a reader sees the committed value, two connections changing it concurrently end with old + a + b in both commit orders.",
    note="Trusted: Coq kernel, the ~150-line fail-closed translator (grammar in its docstring), CPython integer arithmetic, persistent's pickling protocol. No axioms (Print Assumptions: closed).",
    technique="Coq proof (lia) over a model regenerated from the source by a translator + differential run of class vs model",
    ref="DESIGN.md section 6 C19"),
@@ -17,7 +17,7 @@ CHECKS.update({
    technique="Coq proof (induction on the merge walk) about a hand-written model + exhaustive/random differential correspondence with C and Python, evaluated by vm_compute",
    ref="DESIGN.md section 6 C07"),
  "C10": dict(
-   text="Theorems C10_walk (the c1/c12/c2 merge walk over strictly ascending streams yields exactly the selected keys, strictly ascending), C10_adapt (an arbitrary iterable is adapted to a sorted duplicate-free stream with the same elements), C10_union / C10_intersection / C10_difference (mathematical result, kind and values of the first operand kept) and C10_none (None table), for all operands; model compared with C and Python on operand-kind x key-relation grids in many families; operators | & - ^ and in-place forms checked against python set algebra.",
+   text="Theorems C10_walk (the c1/c12/c2 merge walk over strictly ascending streams yields exactly the selected keys, strictly ascending), C10_adapt (an arbitrary iterable is adapted to a sorted duplicate-free stream with the same elements), C10_union / C10_intersection / C10_difference (mathematical result, kind and values of the first operand kept) and C10_none (None table), for all operands; model compared with C and Python on operand-kind x key-relation grids in many families; operators | & - ^ and in-place forms checked against python set algebra. Operands include one-shot iterators / generators and the keys() / values() views of trees.",
    note="Trusted: Coq kernel; Model/SetOps.v tied by correspondence; keys as Z. The ^ operator is only exercised with a Set/TreeSet on the left (documented API). Plain lists mixing None and ints are not generated (python cannot sort them). Print Assumptions: closed.",
    technique="Coq proof about a hand-written model of set_operation + differential correspondence with C and Python",
    ref="DESIGN.md section 6 C10"),
@@ -29,14 +29,14 @@ CHECKS.update({
 })
 CHECKS.update({
  "C11": dict(
-   text="Theorems C11_radix (the byte-wise LSB-first radix sort with the signed/unsigned most-significant-byte order sorts every list of keys of the type's range), C11_quicksort (the explicit-stack median-of-3 quicksort with insertion sort below 26 sorts and its fuel suffices), C11_uniq, C11_multiunion_c (gather + sort on either side of the 800 switch + uniq = sorted duplicate-free union), C11_multiunion_py and C11_same (C and Python return the same set), for all inputs. The model is compared with C and Python multiunion on all 16 integer-key families, all operand kinds, sizes around 25/800 and beyond, keys over the whole range; the generator is required to reach both sort paths for every key type.",
+   text="Theorems C11_radix (the byte-wise LSB-first radix sort with the signed/unsigned most-significant-byte order sorts every list of keys of the type's range), C11_quicksort (the explicit-stack median-of-3 quicksort with insertion sort below 26 sorts and its fuel suffices), C11_uniq, C11_multiunion_c (gather + sort on either side of the 800 switch + uniq = sorted duplicate-free union), C11_multiunion_py and C11_same (C and Python return the same set), for all inputs. The model is compared with C and Python multiunion on all 16 integer-key families, all operand kinds, sizes around 25/800 and beyond, keys over the whole range; the generator is required to reach both sort paths for every key type. Inputs include duplicate-free key sets varying in exactly 2..8 low-order bytes and stored operands that have been evicted from the cache.",
    note="Trusted: Coq kernel; Model/Sort.v tied by correspondence; little-endian two's-complement keys; the insertion sort inside quicksort is modelled functionally (slice sorted in place). Print Assumptions: closed.",
    technique="Coq proofs (radix sort by stable-pass invariant; in-place quicksort by slice invariant) about a hand-written model of sorters.c + differential correspondence",
    ref="DESIGN.md section 6 C11"),
 })
 CHECKS.update({
  "C18": dict(
-   text="Theorems C18_sound and C18_complete: on ARBITRARY stored states (leaves and interior nodes whose next / firstbucket pointers are arbitrary identities), check() and _check() both accept a state if and only if it satisfies the globally stated stored invariant (key order, containment in the intervals promised by the separators, every leaf linked to its in-order successor and every firstbucket = leftmost leaf, uniform child kinds, non-empty nodes) -- so between them the tools have no blind spot for any single or multiple corruption; C18_accepts_api_trees: every tree satisfying the API invariant (C03) is accepted. The model of both checkers is compared with the C and Python implementations on valid trees and 12 classes of single corruptions installed through __setstate__, and with an independent Python statement of the invariant.",
+   text="Theorems C18_sound and C18_complete: on ARBITRARY stored states (leaves and interior nodes whose next / firstbucket pointers are arbitrary identities), check() and _check() both accept a state if and only if it satisfies the globally stated stored invariant (key order, containment in the intervals promised by the separators, every leaf linked to its in-order successor and every firstbucket = leftmost leaf, uniform child kinds, non-empty nodes) -- so between them the tools have no blind spot for any single or multiple corruption; C18_accepts_api_trees: every tree satisfying the API invariant (C03) is accepted. The model of both checkers is compared with the C and Python implementations on valid trees and 12 classes of single corruptions installed through __setstate__, and with an independent Python statement of the invariant. Valid trees that live in a database with all or some nodes evicted (ghosts) must be accepted too.",
    note="Trusted: Coq kernel; Model/Check.v tied by correspondence; states in which one leaf object is the child of two parents are outside the state type; refcount/len<=size clauses of the C _check are not modelled. Print Assumptions: closed.",
    technique="Coq proof (equivalence of two recursive checkers with a global invariant, nested induction) + differential correspondence on corrupted states",
    ref="DESIGN.md section 6 C18"),
@@ -55,50 +55,50 @@ CHECKS.update({
 })
 CHECKS.update({
  "C01": dict(
-   text="Theorems C01_refines (for every history of the 28 public calls and every node-size setting ml>=1, mi>=2: every return value / KeyError and the final ordered contents of the B+tree model equal those of the reference sorted association list), C01_keys_sorted (keys unique and ascending in every reachable state), C01_raise_preserves (a call raising KeyError leaves the contents unchanged), C01_leaf (Bucket/Set insert/delete = reference insert/remove). The model is compared with the C and the Python implementation on random histories for all 22 families x 4 kinds: every output, final contents AND final shape (separators, leaf boundaries), at node sizes reaching 8 levels.",
+   text="Theorems C01_refines (for every history of the 28 public calls and every node-size setting ml>=1, mi>=2: every return value / KeyError and the final ordered contents of the B+tree model equal those of the reference sorted association list), C01_keys_sorted (keys unique and ascending in every reachable state), C01_raise_preserves (a call raising KeyError leaves the contents unchanged), C01_leaf (Bucket/Set insert/delete = reference insert/remove). The model is compared with the C and the Python implementation on random histories for all 22 families x 4 kinds: every output, final contents AND final shape (separators, leaf boundaries), at node sizes reaching 8 levels. Histories include the container itself as operand of |= &= -= ^= and writes the family rejects (unusable key / value), which must leave the contents untouched.",
    note="Trusted: Coq kernel; Model/RTree.v + Model/TreeRun.v tied by correspondence; keys as Z (order-isomorphic family adapters incl. None-smallest object keys and integer extremes); has_key compared by truth value; update()'s return value not compared; C01_refines assumes that a history using the set-only operator &= stores only the value 0 (true for sets). Print Assumptions: closed.",
    technique="Coq proof of refinement (B+tree model -> sorted association list) by induction over histories and tree structure + differential correspondence incl. shape",
    ref="DESIGN.md section 6 C01"),
  "C03": dict(
-   text="Theorems C03_init, C03_step, C03_reachable, C03_set, C03_del: the invariant Inv (no empty node, uniform child kinds and depth, keys strictly ascending, every key and separator inside the interval its ancestors promise, exact separators, leaf size <= max_leaf_size, interior size <= max_internal_size, root < 2*max_internal_size) holds initially and is preserved by every public call, for all node sizes ml>=1, mi>=2; with C18_accepts_api_trees both checkers accept every such tree. The harness checks after EVERY call of random histories: _check(), BTrees.check.check(), an independent walker (chain = descent order, bounds, sizes), and shape equality with the model, class-level and subclass-level size settings.",
+   text="Theorems C03_init, C03_step, C03_reachable, C03_set, C03_del: the invariant Inv (no empty node, uniform child kinds and depth, keys strictly ascending, every key and separator inside the interval its ancestors promise, exact separators, leaf size <= max_leaf_size, interior size <= max_internal_size, root < 2*max_internal_size) holds initially and is preserved by every public call, for all node sizes ml>=1, mi>=2; with C18_accepts_api_trees both checkers accept every such tree. The harness checks after EVERY call of random histories: _check(), BTrees.check.check(), an independent walker (chain = descent order, bounds, sizes), and shape equality with the model, class-level and subclass-level size settings. Rejected writes (unusable key or value, in particular into an empty tree) are interleaved and checked the same way (plus contents unchanged, bool agrees with len).",
    note="Trusted: Coq kernel; model tied by per-step shape correspondence. The leaf chain of the model is the in-order leaf sequence by construction: that the implementation's next/firstbucket pointers realise it is checked by the correspondence run, not proved (partial for the pointer clause). Print Assumptions: closed.",
    technique="Coq invariant proof over the B+tree model (insert/split/root split/delete/unlink) + per-step differential correspondence",
    ref="DESIGN.md section 6 C03"),
 })
 CHECKS.update({
  "C14": dict(
-   text="Theorems C14_btree_search and C14_bucket_search (the two binary searches, transcribed literally with their fuel, find the right child / the key or its insertion point on sorted input, and only probe stored keys), C14_probes_are_stored_keys, C14_atomic (an operation is its comparison phase followed by its change: if the n-th comparison raises nothing has been modified). The harness records the sequence of stored keys every lookup/insert/delete compares with and checks it against the model for C and Python, and fails EVERY comparison of every operation kind (lookup, insert, replace, delete, range search, minKey, union/intersection/difference, conflict merge) in turn: exception propagated, contents before-or-after, _check(), check(), chain walk, follow-up calls.",
+   text="Theorems C14_btree_search and C14_bucket_search (the two binary searches, transcribed literally with their fuel, find the right child / the key or its insertion point on sorted input, and only probe stored keys), C14_probes_are_stored_keys, C14_atomic (an operation is its comparison phase followed by its change: if the n-th comparison raises nothing has been modified). The harness records the sequence of stored keys every lookup/insert/delete compares with and checks it against the model for C and Python, and fails EVERY comparison of every operation kind (lookup, insert, replace, delete, range search, minKey, union/intersection/difference, conflict merge) in turn: exception propagated, contents before-or-after, _check(), check(), chain walk, follow-up calls. Every second injected failure in lookups on trees is a TypeError subclass; after each injection the container is dropped and no key or value object may stay alive (leak detection by live-instance counters).",
    note="Partial: that all comparisons precede all modifications is a property of the code's control flow which the model states by construction (cmp_trace then change); it is tied to the code by the probe-sequence correspondence and the exhaustive failure injection, not by a proof about the C text. Finding F13 (comparison after the change in delete) was repaired. Reference counts on the failure paths belong to C16. Print Assumptions: closed.",
    technique="Coq proof of the literal binary searches + probe-sequence correspondence + exhaustive comparison-failure injection",
    ref="DESIGN.md section 6 C14"),
 })
 CHECKS.update({
  "C15": dict(
-   text="Theorems C15_next_total / C15_iteration_never_oob (on a leaf store mutated ARBITRARILY between steps -- leaves shrunk, emptied, unlinked but kept alive by the iterator's reference -- every step of the C iterator yields an element of the leaf it is parked on, ends the iteration or raises RuntimeError; it never reads outside a vector or through a dead pointer) and C15_seek_in_bounds (the lazy sequence reads an entry only after validating the computed position against the leaf's current size). The harness runs interleavings of iterator steps / indexings with inserts, deletes, pop-min until leaves are emptied and unlinked, clear, on all four kinds, C and Python, in a child process: allowed outcome per step, final contents, _check(), check(); a crash is a failure.",
+   text="Theorems C15_next_total / C15_iteration_never_oob (on a leaf store mutated ARBITRARILY between steps -- leaves shrunk, emptied, unlinked but kept alive by the iterator's reference -- every step of the C iterator yields an element of the leaf it is parked on, ends the iteration or raises RuntimeError; it never reads outside a vector or through a dead pointer) and C15_seek_in_bounds (the lazy sequence reads an entry only after validating the computed position against the leaf's current size). The harness runs interleavings of iterator steps / indexings with inserts, deletes, pop-min until leaves are emptied and unlinked, clear, on all four kinds, C and Python, in a child process: allowed outcome per step, final contents, _check(), check(); a crash is a failure. Sources include range sequences starting deep inside a leaf with targeted deletes below the range start; steps include len, bool, iteration and indexing of stale sequences.",
    note="Partial: real memory safety of the C process is runtime behaviour the model cannot exhibit; the model states the bounds discipline of BTreeIter_next / BTreeItems_seek and the harness observes crashes. The Python generator-based iteration is covered by the harness only. Print Assumptions: closed.",
    technique="Coq proof of the iterator's bounds discipline on arbitrarily mutated stores + interleaving exploration in a sacrificial child process",
    ref="DESIGN.md section 6 C15"),
 })
 CHECKS.update({
  "C04": dict(
-   text="Theorems (all under the guard that only the ROOT holds a single leaf without oid): C04_footprint_set_partial / C04_footprint_del_partial (every stored object whose record would differ after an insert / delete was marked changed by that operation -- each modification is announced), C04_commit_partial (a commit that dumps, in ANY order, every registered object and every object that received an oid brings every record up to date), C04_reader_partial (a fresh reader of up-to-date records sees precisely the writer's contents, by descent and along the leaf chain, in a state satisfying the stored invariant), C04_run_partial (the run-level statement: for EVERY history of public calls and commits, commits anywhere and in any complete dump order, during which the guard holds, a fresh reader after a final commit sees exactly the writer's contents in a sound tree; both implementations' switches, all node sizes), and C04_refuted (without the guard the statement is false: witness tree and dump order, the reader gets two copies of a leaf -- finding F16). The model (events -> registration, getstate with the embedding rule, order-dependent commit, reader) is compared with C and Python through a data manager: registered and read-current sets after every call, the dump sequence, the reader's view after every commit (the model predicts the F16 corruption exactly when it happens), aborts; the hypotheses of the theorems are evaluated as boolean checks on every real step / commit.",
+   text="Theorems (all under the guard that only the ROOT holds a single leaf without oid): C04_footprint_set_partial / C04_footprint_del_partial (every stored object whose record would differ after an insert / delete was marked changed by that operation -- each modification is announced), C04_commit_partial (a commit that dumps, in ANY order, every registered object and every object that received an oid brings every record up to date), C04_reader_partial (a fresh reader of up-to-date records sees precisely the writer's contents, by descent and along the leaf chain, in a state satisfying the stored invariant), C04_run_partial (the run-level statement: for EVERY history of public calls and commits, commits anywhere and in any complete dump order, during which the guard holds, a fresh reader after a final commit sees exactly the writer's contents in a sound tree; both implementations' switches, all node sizes), and C04_refuted (without the guard the statement is false: witness tree and dump order, the reader gets two copies of a leaf -- finding F16). The model (events -> registration, getstate with the embedding rule, order-dependent commit, reader) is compared with C and Python through a data manager: registered and read-current sets after every call, the dump sequence, the reader's view after every commit (the model predicts the F16 corruption exactly when it happens), aborts; the hypotheses of the theorems are evaluated as boolean checks on every real step / commit. After a third of the commits the cache drops every object (the writer continues with ghosts); two targeted patterns (grow-commit-shrink-to-one-leaf-commit-touch; a bucket unlinked in the transaction still pointing at the leaf the root embeds) run in every tier.",
    note="Partial: guard no_embed_below (F16 is a recorded finding of both implementations); the run-level theorem's commits write tree nodes only -- a real commit also writes registered objects that left the tree, and when one still references the leaf embedded in the root the hypothesis on the dump sequence is false and an update is lost (finding F33, recorded); harness/minijar.py stands in for ZODB's connection (three dump orders); the run-level theorem covers all calls except the bulk forms (update, |=, &=, -=, ^=: folds of single inserts/deletes in the model, whose intermediate states would need the guard too); abort is modelled as restoring the last committed tree. Print Assumptions: closed.",
    technique="Coq proofs about a hand-written persistence model (write footprint, order-independent commit under a guard, reader reconstruction, refutation witness) + differential correspondence through a mini data manager",
    ref="DESIGN.md section 6 C04"),
  "C16": dict(
-   text="Theorems C16_owned (after ANY history of leaf operations -- insert, replace, delete, clear, pop, minKey, release by the caller -- the net references the extension took on every object equal the key slots + value slots holding it + the references handed to the caller), C16_released, C16_never_freed_while_stored, about a model with INCREF/DECREF where BucketTemplate.c / SetTemplate.c have them. The harness compares sys.getrefcount deltas of probe objects with the model after leaf histories, and, for trees, after EVERY call of histories (error paths, failing comparisons, pop/popitem/setdefault/update, set algebra, merges, pickling, eviction, destruction) with the number of leaf slots and node-key slots holding each probe.",
+   text="Theorems C16_owned (after ANY history of leaf operations -- insert, replace, delete, clear, pop, minKey, release by the caller -- the net references the extension took on every object equal the key slots + value slots holding it + the references handed to the caller), C16_released, C16_never_freed_while_stored, about a model with INCREF/DECREF where BucketTemplate.c / SetTemplate.c have them. The harness compares sys.getrefcount deltas of probe objects with the model after leaf histories, and, for trees, after EVERY call of histories (error paths, failing comparisons, pop/popitem/setdefault/update, set algebra, merges, pickling, eviction, destruction) with the number of leaf slots and node-key slots holding each probe. Three targeted scenarios: entries around an iterator's cursor deleted before next() (yielded objects must still be stored); every pair of edits through _p_resolveConflict, all refusal reasons, with a reference audit after everything is dropped; reference counts of all NODE objects across every read-only query (all bound pairs x exclusion flags).",
    note="Partial: the Coq model covers the leaf; interior node keys (index >= 1 owns a reference) are checked by the harness oracle only; reads or writes outside allocated memory are not observable without a sanitizer build (crashes are). F11 (Set.pop/TreeSet.pop leak) found and fixed. Print Assumptions: closed.",
    technique="Coq proof of an ownership invariant over an INCREF/DECREF model + per-call reference-count differential check",
    ref="DESIGN.md section 6 C16"),
  "C17": dict(
-   text="Theorems C17_grow, C17_insert, C17_inserts, C17_resize: in a block-heap model where a successful realloc always releases the old block, for EVERY placement of the failing allocation request, Bucket_grow / an insert / any number of inserts from the empty bucket / the realloc pair of __setstate__ and fromBytes end in a state where no field refers to a released block, the two vectors are distinct live blocks, nothing leaks, and the length is the previous one (MemoryError) or the new one. The harness counts the allocations of every allocating operation with the BTREES_VERIF hook and fails each one in turn (insert, splits, root split, update, setstate, set operations, multiunion, merge, fromBytes, pickling) in a child process under MALLOC_CHECK_/MALLOC_PERTURB_: MemoryError, contents before-or-after, _check(), follow-up workload, destruction; allocation counts of n inserts are compared with the model.",
+   text="Theorems C17_grow, C17_insert, C17_inserts, C17_resize: in a block-heap model where a successful realloc always releases the old block, for EVERY placement of the failing allocation request, Bucket_grow / an insert / any number of inserts from the empty bucket / the realloc pair of __setstate__ and fromBytes end in a state where no field refers to a released block, the two vectors are distinct live blocks, nothing leaks, and the length is the previous one (MemoryError) or the new one. The harness counts the allocations of every allocating operation with the BTREES_VERIF hook and fails each one in turn (insert, splits, root split, update, setstate, set operations, multiunion, merge, fromBytes, pickling) in a child process under MALLOC_CHECK_/MALLOC_PERTURB_: MemoryError, contents before-or-after, _check(), follow-up workload, destruction; no stored object's reference count may drop; a fixed grid (first insert into every kind, leaf split, interior and root split, __setstate__ on empty / small / full containers) runs in every tier; allocation counts of n inserts are compared with the model.",
    note="Partial: the model covers the bucket vectors (the sites of finding F14, repaired); BTree_grow/BTree_split/_BTree_setstate are exercised by the harness only; allocations made by CPython itself are outside the hook; __setstate__ losing the previous contents on MemoryError is recorded as F26. Print Assumptions: closed.",
    technique="Coq proof over an explicit block heap with failing allocation oracle + exhaustive allocation-failure injection through a guarded hook",
    ref="DESIGN.md section 6 C17"),
 })
 CHECKS.update({
  "C05": dict(
-   text="Theorems C05_sync_set_partial / C05_sync_del_partial: after every insert and every delete (any tree satisfying the invariant, any node sizes, under the C04 guard) every stored node that the operation did not mark changed still EQUALS its record -- so evicting any set of unchanged nodes between operations and reloading them from their records is the identity, and with C04_reader_partial the whole tree can be dropped and reloaded at any commit point. The part of the property that lives in the run time -- pins (sticky state) while an operation runs, cache sweeps from INSIDE key comparisons, failing operations leaving nothing pinned -- is decided by the harness: histories on stored containers of all families with sweeps / single-node deactivations between calls; object-keyed containers whose comparison sweeps the cache on every comparison, compared with an un-swept twin; after every call (also failing ones: bad key, missing key, unusable bound) no node is sticky and every stored unchanged node is evictable.",
+   text="Theorems C05_sync_set_partial / C05_sync_del_partial: after every insert and every delete (any tree satisfying the invariant, any node sizes, under the C04 guard) every stored node that the operation did not mark changed still EQUALS its record -- so evicting any set of unchanged nodes between operations and reloading them from their records is the identity, and with C04_reader_partial the whole tree can be dropped and reloaded at any commit point. The part of the property that lives in the run time -- pins (sticky state) while an operation runs, cache sweeps from INSIDE key comparisons, failing operations leaving nothing pinned -- is decided by the harness: histories on stored containers of all families with sweeps / single-node deactivations between calls; object-keyed containers whose comparison sweeps the cache on every comparison, compared with an un-swept twin; after every call (also failing ones: bad key, missing key, unusable bound) no node is sticky and every stored unchanged node is evictable. Module-level set algebra and multiunion are run on stored operands that have been evicted.",
    note="Partial: the model has no notion of a pin; pin discipline and sweeps inside comparisons are exercised, not proved (runtime behaviour of cPersistence the model cannot exhibit). Guard no_embed_below as in C04 (finding F16). Findings F12 and F25 (C) found and fixed; F24 (pure Python has no pin protection at all) is a recorded finding. harness/minijar.py + persistent.PickleCache stand in for ZODB. Print Assumptions: closed.",
    technique="Coq proof that unchanged stored nodes stay equal to their records (eviction = identity between operations) + eviction-schedule exploration incl. sweeps inside comparisons and pin checks after failing calls",
    ref="DESIGN.md section 6 C05"),
@@ -108,14 +108,14 @@ CHECKS.update({
    technique="Coq proofs of the read-dependency footprint of writes and of the silence of reads + two-connection commit-schedule exploration with conflict resolution",
    ref="DESIGN.md section 6 C08"),
  "C09": dict(
-   text="Both implementations are tied to ONE Coq model whose only differences are explicit switches (isC / vsame / iand_rebuilds). Theorems: C09_results_equal (for every history, every node-size setting, the two settings of the switches give the same results and the same final contents), C09_shape_equal (for every history without the set operator &=, the resulting trees are IDENTICAL -- separators, leaf boundaries, node identities -- hence equal serialized state), C09_conversions_agree (the C and the Python integer conversion accept the same values, except objects that merely define __index__). The harness runs one history on the C and on the Python class of all 22 families x 4 kinds side by side, interleaving calls whose key or value lies OUTSIDE the family's domain (out-of-range ints, wrong types, None, floats, bools, default-comparison objects, unhashable values): equal result, same exception class, equal contents, equal shape, byte-identical pickle after every call.",
+   text="Both implementations are tied to ONE Coq model whose only differences are explicit switches (isC / vsame / iand_rebuilds). Theorems: C09_results_equal (for every history, every node-size setting, the two settings of the switches give the same results and the same final contents), C09_shape_equal (for every history without the set operator &=, the resulting trees are IDENTICAL -- separators, leaf boundaries, node identities -- hence equal serialized state), C09_conversions_agree (the C and the Python integer conversion accept the same values, except objects that merely define __index__). The harness runs one history on the C and on the Python class of all 22 families x 4 kinds side by side, interleaving calls whose key or value lies OUTSIDE the family's domain (out-of-range ints, wrong types, None, floats, bools, default-comparison objects, unhashable values): equal result, same exception class, equal contents, equal shape, byte-identical pickle after every call. Also: keys that cannot be ordered against the stored ones, and probes at the edges of each family's key and value domain (then restored).",
    note="Partial: exception classes and out-of-domain arguments are outside the Coq model (differential only). Recorded divergences: F17 (&= leaves different shapes), F27 (fs pickles differ by a memo reference), F28 (exception classes on an empty container), F29 (setdefault with an unusable value on an existing key), F31 (unorderable key: Bucket.get / discard); F30, F32 fixed. byValue, error texts and update()'s return value are excluded by the property. Print Assumptions: closed.",
    technique="Coq proof that the model's C/Python switches do not influence results, contents or shape + paired differential execution incl. out-of-domain arguments",
    ref="DESIGN.md section 6 C09"),
 })
 CHECKS.update({
  "C06": dict(
-   text="Theorems C06_pickle_roundtrip_partial (for EVERY tree satisfying the invariant in which only the root may hold a single leaf child: the object graph that pickle / deepcopy writes -- every object once, with the state __getstate__ returns, a single leaf child embedded in its parent's state -- is rebuilt by the reader into a container with the same ordered contents, by descent and along the leaf chain, that satisfies the stored invariant both checkers decide (C18)), C06_refuted (without the guard the statement is false: witness tree whose copy fails _check -- finding F16c, both implementations). Correspondence: for every generated history the records the model writes (dump_all []) are compared, object by object in pre-order, with what __getstate__ of the C and of the Python container returns (items, next links, separators, firstbucket, embedded form). Differential part: __getstate__/__setstate__, pickle protocols 0..5, copy and deepcopy in C and Python on all 22 families x 4 kinds; byte comparison C vs Python for every protocol; C pickles loaded in a pure-Python process (PURE_PYTHON=1) and its pickles compared byte-wise with the C ones; every reproduced container is checked for contents, _check(), the independent walker, and replays follow-up calls like the original.",
+   text="Theorems C06_pickle_roundtrip_partial (for EVERY tree satisfying the invariant in which only the root may hold a single leaf child: the object graph that pickle / deepcopy writes -- every object once, with the state __getstate__ returns, a single leaf child embedded in its parent's state -- is rebuilt by the reader into a container with the same ordered contents, by descent and along the leaf chain, that satisfies the stored invariant both checkers decide (C18)), C06_refuted (without the guard the statement is false: witness tree whose copy fails _check -- finding F16c, both implementations). Correspondence: for every generated history the records the model writes (dump_all []) are compared, object by object in pre-order, with what __getstate__ of the C and of the Python container returns (items, next links, separators, firstbucket, embedded form). Differential part: __getstate__/__setstate__, pickle protocols 0..5, copy and deepcopy in C and Python on all 22 families x 4 kinds; byte comparison C vs Python for every protocol; C pickles loaded in a pure-Python process (PURE_PYTHON=1) and its pickles compared byte-wise with the C ones; every reproduced container is checked for contents, _check(), the independent walker, and replays follow-up calls like the original. Further: __setstate__ on objects in use (a leaf with a successor, a populated tree); keys/values of a convertible but different Python type (bool, int for float) must be stored as the family's type in both implementations (typed comparison of states, pickles, type stability across pickle and deepcopy); containers living in a database have equal states in C and Python after every commit.",
    note="Partial: the byte level of pickle is CPython's (the model covers the state values); guard no_embed_below (F16c is a recorded finding); F27 (fs pickles differ by a memo back-reference) recorded; F18, F19 (copy.copy of pure-Python trees) found and fixed. Print Assumptions: closed.",
    technique="Coq proof (reader reconstruction of the pickled object graph, refutation witness) + object-graph correspondence with __getstate__ + differential pickle/copy/cross-implementation loading",
    ref="DESIGN.md section 6 C06"),
